@@ -138,6 +138,7 @@ EvPopulate(e) ==
             ELSE IF e.cls = "AnalyticProposal" THEN e.n = e.N
             ELSE e.n = e.N)
     /\ P("C09", "pool_indices_each_once", e.perm)
+    /\ P("C09", "pool_inside_latent_contour", e.in_contour)
     /\ Mark("populate") /\ UNCHANGED <<s, rank, ok, disk>>
 
 EvOutside(e) ==
